@@ -437,6 +437,58 @@ type c02Env struct {
 	bind  map[ssa.Value]ssa.Value // phi -> value it received on the last entry of its block
 	known map[ssa.Value]bool      // boolean facts
 	facts map[string]c02ExprFact  // facts about comparisons, keyed by a canonical form of the expression (value numbering: two syntactically separate tests of the same operands agree)
+	mem   map[string]ssa.Value    // content of the memory cells the function owns (see c02CellKey)
+	sym   map[ssa.Value]c02Sym    // v = base + off, computed when v is computed (so it survives later re-binding of base's name)
+}
+
+// c02Sym: a value known to be base plus a constant offset.
+type c02Sym struct {
+	base ssa.Value
+	off  int64
+}
+
+// symOf: the symbolic form of v (v itself plus 0 if nothing better is known).
+func (e *c02Env) symOf(v ssa.Value) c02Sym {
+	v = e.resolve(v)
+	if s, ok := e.sym[v]; ok {
+		return s
+	}
+	return c02Sym{v, 0}
+}
+
+// symEffect records the symbolic form of an arithmetic instruction as it executes.
+func (e *c02Env) symEffect(in ssa.Instruction) {
+	if e.sym == nil {
+		e.sym = map[ssa.Value]c02Sym{}
+	}
+	switch x := in.(type) {
+	case *ssa.BinOp:
+		delete(e.sym, x)
+		if x.Op != token.ADD && x.Op != token.SUB {
+			return
+		}
+		var other ssa.Value
+		var k int64
+		if c, ok := c02ConstInt(x.Y, 0); ok {
+			other, k = x.X, c
+		} else if c, ok := c02ConstInt(x.X, 0); ok && x.Op == token.ADD {
+			other, k = x.Y, c
+		} else {
+			return
+		}
+		if x.Op == token.SUB {
+			k = -k
+		}
+		b := e.symOf(other)
+		e.sym[x] = c02Sym{b.base, b.off + k}
+	case *ssa.Convert:
+		delete(e.sym, x)
+		if _, isInt := c02IntRange(x.Type()); isInt {
+			if _, isInt2 := c02IntRange(x.X.Type()); isInt2 {
+				e.sym[x] = e.symOf(x.X)
+			}
+		}
+	}
 }
 
 type c02ExprFact struct {
@@ -520,7 +572,14 @@ func (e *c02Env) c02CanonCmp(cond ssa.Value) (key string, pol bool, ops []ssa.Va
 }
 
 func (e *c02Env) clone() *c02Env {
-	n := &c02Env{bind: map[ssa.Value]ssa.Value{}, known: map[ssa.Value]bool{}, facts: map[string]c02ExprFact{}}
+	n := &c02Env{bind: map[ssa.Value]ssa.Value{}, known: map[ssa.Value]bool{}, facts: map[string]c02ExprFact{}, mem: map[string]ssa.Value{}}
+	for k, v := range e.mem {
+		n.mem[k] = v
+	}
+	n.sym = map[ssa.Value]c02Sym{}
+	for k, v := range e.sym {
+		n.sym[k] = v
+	}
 	for k, v := range e.bind {
 		n.bind[k] = v
 	}
@@ -543,6 +602,12 @@ func (e *c02Env) key() string {
 	}
 	for k, v := range e.facts {
 		parts = append(parts, fmt.Sprintf("%s:%v", k, v.val))
+	}
+	for k, v := range e.mem {
+		parts = append(parts, "m:"+k+"="+v.Name())
+	}
+	for k, v := range e.sym {
+		parts = append(parts, fmt.Sprintf("s:%s=%s%+d", k.Name(), v.base.Name(), v.off))
 	}
 	sort.Strings(parts)
 	return strings.Join(parts, ",")
@@ -608,6 +673,20 @@ func (e *c02Env) eval(v ssa.Value) (val, known bool) {
 			}
 			break
 		}
+		// an error (or pointer) compared with nil
+		if isNilConst(x.Y) || isNilConst(x.X) {
+			o := x.X
+			if isNilConst(x.X) {
+				o = x.Y
+			}
+			o = e.resolve(o)
+			switch {
+			case isNilConst(o):
+				return x.Op == token.EQL, true
+			case c02ErrShapeNonNil(o):
+				return x.Op == token.NEQ, true
+			}
+		}
 		// integer compared with the constant zero
 		var other ssa.Value
 		if k, ok := x.Y.(*ssa.Const); ok && k.Value != nil && k.Value.Kind() == constant.Int && constant.Sign(k.Value) == 0 {
@@ -618,6 +697,17 @@ func (e *c02Env) eval(v ssa.Value) (val, known bool) {
 		if other != nil {
 			if z, ok := e.intZeroness(other); ok {
 				return z == (x.Op == token.EQL), true
+			}
+		}
+	}
+	// two constants (e.g. a small enum returned by a phase helper, compared with its cases)
+	if bo, ok := v.(*ssa.BinOp); ok {
+		kx, okx := e.resolve(bo.X).(*ssa.Const)
+		ky, oky := e.resolve(bo.Y).(*ssa.Const)
+		if okx && oky && kx.Value != nil && ky.Value != nil && kx.Value.Kind() == ky.Value.Kind() && (kx.Value.Kind() == constant.Int || kx.Value.Kind() == constant.String) {
+			switch bo.Op {
+			case token.EQL, token.NEQ, token.LSS, token.LEQ, token.GTR, token.GEQ:
+				return constant.Compare(kx.Value, bo.Op, ky.Value), true
 			}
 		}
 	}
@@ -682,6 +772,7 @@ func (e *c02Env) enter(from, to *ssa.BasicBlock) {
 	}
 	newBind := map[ssa.Value]ssa.Value{}
 	newKnown := map[ssa.Value]bool{}
+	newSym := map[ssa.Value]c02Sym{}
 	for _, in := range to.Instrs {
 		phi, ok := in.(*ssa.Phi)
 		if !ok {
@@ -691,6 +782,11 @@ func (e *c02Env) enter(from, to *ssa.BasicBlock) {
 			inc := e.resolve(phi.Edges[idx])
 			if b, ok := e.eval(inc); ok {
 				newKnown[phi] = b
+			}
+			if sy := e.symOf(inc); sy.base != ssa.Value(phi) || sy.off != 0 {
+				if _, isInt := c02IntRange(phi.Type()); isInt {
+					newSym[phi] = sy
+				}
 			}
 			if !redefined[inc] || inc == ssa.Value(phi) {
 				if inc != ssa.Value(phi) {
@@ -711,6 +807,13 @@ func (e *c02Env) enter(from, to *ssa.BasicBlock) {
 	for v := range redefined {
 		delete(e.known, v)
 		delete(e.bind, v)
+		delete(e.sym, v)
+	}
+	if e.sym == nil {
+		e.sym = map[ssa.Value]c02Sym{}
+	}
+	for k, v := range newSym {
+		e.sym[k] = v
 	}
 	for k, f := range e.facts {
 		for _, op := range f.ops {
@@ -751,16 +854,91 @@ func c02Explore(start *ssa.BasicBlock, startIdx int, env *c02Env, visit func(in 
 // c02ExploreEdges is c02Explore with an edge filter: a CFG edge for which
 // edgeStop returns true is not followed.
 func c02ExploreEdges(start *ssa.BasicBlock, startIdx int, env *c02Env, visit func(in ssa.Instruction) c02Action, edgeStop func(from, to *ssa.BasicBlock) bool) (hits []c02Hit, exhausted bool) {
+	o := &c02XOpts{Visit: func(in ssa.Instruction, _ *c02Env) c02Action { return visit(in) }}
+	if edgeStop != nil {
+		o.EdgeStop = func(from, to *ssa.BasicBlock, _ *c02Env) bool { return edgeStop(from, to) }
+	}
+	return c02ExploreX(start, startIdx, env, o)
+}
+
+// c02XOpts configures the path explorer.
+type c02XOpts struct {
+	Visit    func(in ssa.Instruction, env *c02Env) c02Action
+	EdgeStop func(from, to *ssa.BasicBlock, env *c02Env) bool
+	NoCalls  bool // do not step into callees
+}
+
+type c02Frame struct {
+	call *ssa.Call
+	b    *ssa.BasicBlock
+	idx  int
+}
+
+// c02LoopFree: fn's CFG has no cycle (cached).
+var c02LoopFreeCache = map[*ssa.Function]bool{}
+
+func c02LoopFree(fn *ssa.Function) bool {
+	if v, ok := c02LoopFreeCache[fn]; ok {
+		return v
+	}
+	free := true
+	for _, b := range fn.Blocks {
+		for _, sc := range b.Succs {
+			if reachableFrom(sc, nil)[b] {
+				free = false
+			}
+		}
+	}
+	c02LoopFreeCache[fn] = free
+	return free
+}
+
+// c02Followable: a static call of a same-package, loop-free, non-recursive
+// function whose body is available: the explorer steps into it, so that the
+// flags / small enums / tuples a phase helper returns stay correlated with
+// the branches its caller takes on them.
+func c02Followable(call *ssa.Call, home *ssa.Function) *ssa.Function {
+	if call.Call.IsInvoke() {
+		return nil
+	}
+	h := staticCallee(call)
+	if h == nil || len(h.Blocks) == 0 || h == home {
+		return nil
+	}
+	hp, fp := c02TopParent(h), c02TopParent(home)
+	if hp.Pkg == nil || fp.Pkg == nil || hp.Pkg != fp.Pkg {
+		return nil
+	}
+	if len(h.Blocks) > 40 || !c02LoopFree(h) {
+		return nil
+	}
+	return h
+}
+
+// c02ExploreX walks all feasible paths from (start block, index) under env,
+// instruction by instruction: memory cells the function owns (locals, fields
+// of local structs, fields behind its pointer receiver) are tracked, calls of
+// followable helpers are entered, branch conditions are evaluated against the
+// facts collected so far.
+func c02ExploreX(start *ssa.BasicBlock, startIdx int, env *c02Env, o *c02XOpts) (hits []c02Hit, exhausted bool) {
 	type item struct {
 		b      *ssa.BasicBlock
 		idx    int
 		env    *c02Env
 		trail  []*ssa.BasicBlock
 		opaque []ssa.Value
+		stack  []c02Frame
 	}
+	home := start.Parent()
 	seen := map[string]bool{}
 	hitSeen := map[ssa.Instruction]bool{}
-	work := []item{{start, startIdx, env, []*ssa.BasicBlock{start}, nil}}
+	if env.facts == nil {
+		env.facts = map[string]c02ExprFact{}
+	}
+	if env.mem == nil {
+		env.mem = map[string]ssa.Value{}
+	}
+	work := []item{{start, startIdx, env, []*ssa.BasicBlock{start}, nil, nil}}
 	steps := 0
 	for len(work) > 0 {
 		it := work[len(work)-1]
@@ -769,22 +947,78 @@ func c02ExploreEdges(start *ssa.BasicBlock, startIdx int, env *c02Env, visit fun
 		if steps > 200000 {
 			return hits, false
 		}
-		k := fmt.Sprintf("%d@%d|%s", it.b.Index, it.idx, it.env.key())
+		var sk []string
+		for _, fr := range it.stack {
+			sk = append(sk, fr.call.Name()+"@"+fr.b.Parent().Name())
+		}
+		k := fmt.Sprintf("%s/%d@%d|%s|%s", it.b.Parent().Name(), it.b.Index, it.idx, strings.Join(sk, ">"), it.env.key())
 		if seen[k] {
 			continue
 		}
 		seen[k] = true
 		stopped := false
 		for i := it.idx; i < len(it.b.Instrs) && !stopped; i++ {
-			switch visit(it.b.Instrs[i]) {
+			in := it.b.Instrs[i]
+			it.env.memEffect(in)
+			it.env.symEffect(in)
+			switch o.Visit(in, it.env) {
 			case c02Stop:
 				stopped = true
+				continue
 			case c02Target:
 				stopped = true
-				if !hitSeen[it.b.Instrs[i]] {
-					hitSeen[it.b.Instrs[i]] = true
-					hits = append(hits, c02Hit{it.b.Instrs[i], it.trail, it.opaque})
+				if !hitSeen[in] {
+					hitSeen[in] = true
+					hits = append(hits, c02Hit{in, it.trail, it.opaque})
 				}
+				continue
+			}
+			switch x := in.(type) {
+			case *ssa.Call:
+				if o.NoCalls || len(it.stack) >= 2 {
+					continue
+				}
+				h := c02Followable(x, home)
+				if h == nil {
+					continue
+				}
+				ne := it.env.clone()
+				for j, pa := range h.Params {
+					if j < len(x.Call.Args) {
+						ne.bindTo(pa, ne.resolve(x.Call.Args[j]))
+					}
+				}
+				ne.enter(nil, h.Blocks[0])
+				st := append(append([]c02Frame{}, it.stack...), c02Frame{x, it.b, i + 1})
+				tr := append(append([]*ssa.BasicBlock{}, it.trail...), h.Blocks[0])
+				work = append(work, item{h.Blocks[0], 0, ne, tr, it.opaque, st})
+				stopped = true
+			case *ssa.Return:
+				if len(it.stack) == 0 {
+					stopped = true
+					continue
+				}
+				fr := it.stack[len(it.stack)-1]
+				ne := it.env.clone()
+				callee := it.b.Parent()
+				var results []ssa.Value
+				for _, rv := range x.Results {
+					results = append(results, ne.resolve(rv))
+				}
+				// facts about the callee's own values end here, except what the results are made of
+				ne.dropFunction(callee, results)
+				if len(results) == 1 {
+					ne.bindTo(fr.call, results[0])
+				} else {
+					for _, rr := range refs(fr.call) {
+						if ex, ok := rr.(*ssa.Extract); ok && ex.Index < len(results) {
+							ne.bindTo(ex, results[ex.Index])
+						}
+					}
+				}
+				tr := append(append([]*ssa.BasicBlock{}, it.trail...), fr.b)
+				work = append(work, item{fr.b, fr.idx, ne, tr, it.opaque, it.stack[:len(it.stack)-1]})
+				stopped = true
 			}
 		}
 		if stopped || len(it.b.Instrs) == 0 {
@@ -792,12 +1026,12 @@ func c02ExploreEdges(start *ssa.BasicBlock, startIdx int, env *c02Env, visit fun
 		}
 		last := it.b.Instrs[len(it.b.Instrs)-1]
 		push := func(to *ssa.BasicBlock, env *c02Env, opq []ssa.Value) {
-			if edgeStop != nil && edgeStop(it.b, to) {
+			if o.EdgeStop != nil && o.EdgeStop(it.b, to, env) {
 				return
 			}
 			env.enter(it.b, to)
 			tr := append(append([]*ssa.BasicBlock{}, it.trail...), to)
-			work = append(work, item{to, 0, env, tr, opq})
+			work = append(work, item{to, 0, env, tr, opq, it.stack})
 		}
 		if ifi, ok := last.(*ssa.If); ok && len(it.b.Succs) == 2 {
 			val, known := it.env.eval(ifi.Cond)
@@ -810,7 +1044,7 @@ func c02ExploreEdges(start *ssa.BasicBlock, startIdx int, env *c02Env, visit fun
 				opq := it.opaque
 				if !known {
 					ne.learn(ifi.Cond, branch)
-					if c02OpaqueFlag(ifi.Cond) {
+					if it.env.opaqueCond(ifi.Cond, home) {
 						opq = append(append([]ssa.Value{}, opq...), ifi.Cond)
 					}
 				}
@@ -823,6 +1057,263 @@ func c02ExploreEdges(start *ssa.BasicBlock, startIdx int, env *c02Env, visit fun
 		}
 	}
 	return hits, true
+}
+
+// ---------------------------------------------------------------------------
+// Memory the analysed function owns.
+
+// c02CellKey names the memory cell behind an address: a non-escaping local
+// (Alloc), a field (path) of a local struct, or a field (path) of the struct
+// behind a pointer parameter / captured pointer. ok=false for anything else.
+func c02CellKey(addr ssa.Value) (root ssa.Value, key string, ok bool) {
+	path := ""
+	for i := 0; i < 6; i++ {
+		switch x := addr.(type) {
+		case *ssa.FieldAddr:
+			path = fmt.Sprintf(".%d%s", x.Field, path)
+			addr = x.X
+			continue
+		case *ssa.Alloc:
+			if !c02OwnedAlloc(x) {
+				return nil, "", false
+			}
+			return x, x.Name() + "@" + x.Parent().Name() + path, true
+		case *ssa.Parameter, *ssa.FreeVar:
+			if path == "" {
+				return nil, "", false
+			}
+			if _, isPtr := x.Type().Underlying().(*types.Pointer); !isPtr {
+				return nil, "", false
+			}
+			return x, x.Name() + "@" + x.Parent().Name() + path, true
+		case *ssa.UnOp:
+			// a pointer held in an owned cell (p := &local; p.f) is not followed
+			return nil, "", false
+		}
+		break
+	}
+	return nil, "", false
+}
+
+var c02OwnedCache = map[*ssa.Alloc]bool{}
+
+// c02OwnedAlloc: every use of the allocation is a load, a store into it, or a
+// field address used the same way (it never escapes as a pointer).
+func c02OwnedAlloc(al *ssa.Alloc) bool {
+	if v, ok := c02OwnedCache[al]; ok {
+		return v
+	}
+	var okAddr func(v ssa.Value, depth int) bool
+	okAddr = func(v ssa.Value, depth int) bool {
+		if depth > 4 {
+			return false
+		}
+		for _, rr := range refs(v) {
+			switch x := rr.(type) {
+			case *ssa.Store:
+				if x.Addr != v {
+					return false
+				}
+			case *ssa.UnOp:
+				if x.Op != token.MUL {
+					return false
+				}
+			case *ssa.DebugRef:
+			case *ssa.FieldAddr:
+				if x.X != v || !okAddr(x, depth+1) {
+					return false
+				}
+			default:
+				return false
+			}
+		}
+		return true
+	}
+	r := okAddr(al, 0)
+	c02OwnedCache[al] = r
+	return r
+}
+
+func c02ZeroConst(t types.Type) ssa.Value {
+	if b, ok := t.Underlying().(*types.Basic); ok {
+		switch {
+		case b.Info()&types.IsBoolean != 0:
+			return ssa.NewConst(constant.MakeBool(false), t)
+		case b.Info()&types.IsInteger != 0:
+			return ssa.NewConst(constant.MakeInt64(0), t)
+		case b.Info()&types.IsString != 0:
+			return ssa.NewConst(constant.MakeString(""), t)
+		}
+		return nil
+	}
+	switch t.Underlying().(type) {
+	case *types.Pointer, *types.Interface, *types.Slice, *types.Map, *types.Chan, *types.Signature:
+		return ssa.NewConst(nil, t)
+	}
+	return nil
+}
+
+// memEffect applies an instruction's effect on the tracked memory.
+func (e *c02Env) memEffect(in ssa.Instruction) {
+	if e.mem == nil {
+		e.mem = map[string]ssa.Value{}
+	}
+	switch x := in.(type) {
+	case *ssa.Alloc:
+		if c02OwnedAlloc(x) {
+			// a fresh zero value; forget what an earlier execution left
+			prefix := x.Name() + "@" + x.Parent().Name()
+			for k := range e.mem {
+				if strings.HasPrefix(k, prefix) {
+					delete(e.mem, k)
+				}
+			}
+			e.mem["zero:"+prefix] = x
+		}
+	case *ssa.Store:
+		if root, key, ok := c02CellKey(x.Addr); ok {
+			if _, isStruct := x.Val.Type().Underlying().(*types.Struct); isStruct {
+				// whole-struct store: the fields are no longer known
+				prefix := key
+				for k := range e.mem {
+					if strings.HasPrefix(k, prefix) {
+						delete(e.mem, k)
+					}
+				}
+				if al, isAl := root.(*ssa.Alloc); isAl && key == al.Name()+"@"+al.Parent().Name() {
+					delete(e.mem, "zero:"+key)
+				}
+				return
+			}
+			e.mem[key] = e.resolve(x.Val)
+		}
+	case *ssa.UnOp:
+		if x.Op != token.MUL {
+			return
+		}
+		root, key, ok := c02CellKey(x.X)
+		if !ok {
+			return
+		}
+		delete(e.bind, x)
+		delete(e.known, x)
+		if v, have := e.mem[key]; have {
+			if v != ssa.Value(x) {
+				e.bindTo(x, v)
+			}
+			return
+		}
+		if al, isAl := root.(*ssa.Alloc); isAl {
+			if _, zeroed := e.mem["zero:"+al.Name()+"@"+al.Parent().Name()]; zeroed {
+				if z := c02ZeroConst(x.Type()); z != nil {
+					e.mem[key] = z
+					e.bindTo(x, z)
+					return
+				}
+			}
+		}
+		// first read on this path: this load names the current content
+		e.mem[key] = x
+	case ssa.CallInstruction:
+		// a call that receives the pointer root (or is a method call on it) may change the fields behind it
+		cc := x.Common()
+		for _, a := range cc.Args {
+			switch a.(type) {
+			case *ssa.Parameter, *ssa.FreeVar:
+				prefix := a.Name() + "@" + a.Parent().Name() + "."
+				for k := range e.mem {
+					if strings.HasPrefix(k, prefix) {
+						delete(e.mem, k)
+					}
+				}
+			}
+		}
+	}
+}
+
+// bindTo makes v stand for target (resolved) from now on.
+func (e *c02Env) bindTo(v, target ssa.Value) {
+	if v == target {
+		delete(e.bind, v)
+		return
+	}
+	e.bind[v] = target
+	if b, ok := e.evalNoBind(target); ok {
+		e.known[v] = b
+	}
+	if sy, ok := e.sym[target]; ok {
+		if e.sym == nil {
+			e.sym = map[ssa.Value]c02Sym{}
+		}
+		e.sym[v] = sy
+	}
+}
+
+func (e *c02Env) evalNoBind(v ssa.Value) (bool, bool) {
+	if k, ok := v.(*ssa.Const); ok && k.Value != nil && k.Value.Kind() == constant.Bool {
+		return constant.BoolVal(k.Value), true
+	}
+	if b, ok := e.known[v]; ok {
+		return b, true
+	}
+	return false, false
+}
+
+// dropFunction forgets bindings and facts about fn's own values (after
+// returning from it), except those the kept values are made of.
+func (e *c02Env) dropFunction(fn *ssa.Function, keep []ssa.Value) {
+	keepSet := map[ssa.Value]bool{}
+	for _, k := range keep {
+		keepSet[k] = true
+	}
+	own := func(v ssa.Value) bool {
+		if keepSet[v] {
+			return false
+		}
+		switch x := v.(type) {
+		case *ssa.Parameter:
+			return x.Parent() == fn
+		case ssa.Instruction:
+			return x.Parent() == fn
+		}
+		return false
+	}
+	for v := range e.bind {
+		if own(v) {
+			delete(e.bind, v)
+		}
+	}
+	for v := range e.known {
+		if own(v) {
+			delete(e.known, v)
+		}
+	}
+	for v := range e.sym {
+		if own(v) {
+			delete(e.sym, v)
+		}
+	}
+	for k, f := range e.facts {
+		for _, op := range f.ops {
+			if own(op) {
+				delete(e.facts, k)
+				break
+			}
+		}
+	}
+	suffix := "@" + fn.Name()
+	for k := range e.mem {
+		if strings.Contains(k, suffix+".") || strings.HasSuffix(k, suffix) || strings.Contains(k, suffix) && strings.HasPrefix(k, "zero:") {
+			delete(e.mem, k)
+		}
+	}
+}
+
+// opaqueCond: an undecided branch condition that the explorer has no way to
+// relate to the facts it tracks (see c02OpaqueFlag); loads of tracked cells
+// and results of followable helpers are not opaque.
+func (e *c02Env) opaqueCond(cond ssa.Value, home *ssa.Function) bool {
+	return c02OpaqueFlagX(cond, home)
 }
 
 // c02OpaqueFlag: an undecided condition that is a boolean *flag* (a call
@@ -871,6 +1362,68 @@ func c02OpaqueFlag(cond ssa.Value) bool {
 		return true
 	}
 	return true
+}
+
+// c02OpaqueFlagX: c02OpaqueFlag for the instruction-level explorer: loads of
+// cells it tracks and results of helpers it steps into are ordinary data.
+func c02OpaqueFlagX(cond ssa.Value, home *ssa.Function) bool {
+	for {
+		if u, ok := cond.(*ssa.UnOp); ok && u.Op == token.NOT {
+			cond = u.X
+			continue
+		}
+		break
+	}
+	tracked := func(op ssa.Value) (isLoad, ok bool) {
+		for i := 0; i < 3; i++ {
+			if cv, isCv := op.(*ssa.Convert); isCv {
+				op = cv.X
+				continue
+			}
+			break
+		}
+		if u, isU := op.(*ssa.UnOp); isU && u.Op == token.MUL {
+			if _, isGlobal := u.X.(*ssa.Global); isGlobal {
+				return false, false
+			}
+			_, _, t := c02CellKey(u.X)
+			return true, t
+		}
+		return false, false
+	}
+	followed := func(v ssa.Value) bool {
+		if ex, ok := v.(*ssa.Extract); ok {
+			v = ex.Tuple
+		}
+		call, ok := v.(*ssa.Call)
+		return ok && c02Followable(call, home) != nil
+	}
+	switch x := cond.(type) {
+	case *ssa.BinOp:
+		if c02IsBool(x.X.Type()) {
+			return c02OpaqueFlagX(x.X, home) || c02OpaqueFlagX(x.Y, home)
+		}
+		for _, op := range []ssa.Value{x.X, x.Y} {
+			if isLoad, ok := tracked(op); isLoad && !ok {
+				return true
+			}
+		}
+		return false
+	case *ssa.Const, *ssa.Parameter:
+		return false
+	case *ssa.Call:
+		if callIs(x, "errors", "", "Is") || callIs(x, "errors", "", "As") {
+			return false
+		}
+		return !followed(x)
+	case *ssa.Extract:
+		return !followed(x)
+	case *ssa.UnOp:
+		if isLoad, ok := tracked(x); isLoad {
+			return !ok
+		}
+	}
+	return c02OpaqueFlag(cond)
 }
 
 func c02Trail(p *Prog, tr []*ssa.BasicBlock) []string {
